@@ -316,7 +316,7 @@ def stepIndicator (d : Drv) (line : String) : Drv × Option String :=
             -- a non-finite value in a slot with a documented interval is outside that interval
             (rangeSpec i.name i.kinds).intervals.findSome? fun (j, lo, hi) =>
               match rvo[j]? with
-              | some none => some s!"v{j}:range value {vt.getD j "?"} (non-finite) outside [{ratStr lo}, {ratStr hi}]"
+              | some none => some s!"v{j}:range-nonfinite value {vt.getD j "?"} (non-finite) outside [{ratStr lo}, {ratStr hi}]"
               | _ => none
         match i.st with
         | none =>
